@@ -16,7 +16,7 @@ Lemma Pause_len_only v v' : wf v -> wf v' -> bytes_ok (arr v) -> bytes_ok (arr v
   Pause_IsValid v = Ok true -> Pause_IsValid v' = Ok true -> view v = view v' -> getters_len_only [] Pause_getters Pause_specs v v'.
 Proof. intros. eapply len_only_of_spec; eauto using Pause_spec. Qed.
 Lemma HBH_len_only v v' : wf v -> wf v' -> bytes_ok (arr v) -> bytes_ok (arr v') ->
-  HBH_IsValid v = Ok true -> HBH_IsValid v' = Ok true -> view v = view v' -> getters_len_only HBH_findings_C02 HBH_getters HBH_specs v v'.
+  HBH_IsValid v = Ok true -> HBH_IsValid v' = Ok true -> view v = view v' -> getters_len_only [] HBH_getters HBH_specs v v'.
 Proof. intros. eapply len_only_of_spec; eauto using HBH_spec. Qed.
 Lemma ICMP_len_only v v' : wf v -> wf v' -> bytes_ok (arr v) -> bytes_ok (arr v') ->
   ICMP_IsValid v = Ok true -> ICMP_IsValid v' = Ok true -> view v = view v' -> getters_len_only [] ICMP_getters ICMP_specs v v'.
